@@ -177,6 +177,8 @@ func main() {
 			fmt.Fprintln(w, reuse(t[1:]))
 		case "BIGA":
 			fmt.Fprintln(w, biga(t[1:]))
+		case "HUGEC":
+			fmt.Fprintln(w, hugec(t[1:]))
 		case "ARRH":
 			// ARRH <all|six> op ; op ; ...
 			var ops []opT
